@@ -820,10 +820,242 @@ def _scale_family(ctx):
 
 
 def _scale_replay(ctx, d):
-    if d["fam"] == "cm":
+    if d["fam"] == "intfrac":
+        _if_run(ctx, [d])
+    elif d["fam"] == "cm":
         _sc_run(ctx, [], [d])
     else:
         _sc_run(ctx, [d], [])
+
+
+# ------------------------------------------------------------------------------------------------------------------
+# The "intfrac" family (seed round 17, combinations): INTEGER-dtype curves (int64 / int32) x expected points with FRACTIONAL
+# coordinates (halves, quarters, eighths - exact in binary64 - and fifths / tenths), given as a float array, a list of tuples
+# or a list of lists.  Every coordinate is k/q with one q per case, so q * (all points) is an integer lattice on which the
+# nearest-neighbour matching is the same: the oracle, the sparse tables and the TLC certificate (Trace_EvaluationScale) of the
+# scale family are reused on the lattice, and mae = lattice sum / (2 |a| q), mse = lattice sum / (2 |a| q^2), rmspe per term
+# over Fractions.  For a q that is not a power of two the coordinates are not exact in binary64: expected points involved in
+# an EXACT tie of the matching are dropped from such a case (a tie decided by rounding noise pins nothing).
+IF_Q = (2, 4, 10, 8, 5)
+IF_DTYPES = ("int64", "int32")
+IF_REPS = ("array", "tuples", "array", "lists")
+
+
+def _if_build(d):
+    """descriptor -> (P int dtype (n, 2), K int array, E as it is passed, q * knee points, q * expected points (int64))"""
+    import random
+    rng = random.Random(d["seed"])
+    n, q, mode = d["n"], d["q"], d["emode"]
+    Pf = _sc_curve(d["shape"], n, d["seed"], d.get("wave"))
+    P = np.ascontiguousarray(Pf.astype(d["dtype"]))
+    assert np.all(P == Pf)
+    K = _sc_knees(rng, n, d["nk"], d["kmode"])
+    ys = Pf[:, 1].astype(np.int64)
+    Ka = np.array(K, dtype=int)
+    KPs = np.column_stack([Ka.astype(np.int64) * q, ys[Ka] * q])
+    if mode == "perfect":
+        pts = [(int(k) * q, int(ys[k]) * q) for k in K]
+    else:
+        seen, pts = set(), []
+        while len(pts) < d["ne"]:
+            if mode in ("near", "off") and rng.random() < 0.9:
+                x = K[rng.randrange(len(K))] + rng.choice((-2, -1, 0, 0, 1, 2, 3))
+            else:
+                x = rng.randrange(1, n - 1)
+            x = min(max(x, 1), n - 2)
+            y = int(ys[x])
+            if mode == "off":
+                y = max(1, y + rng.choice((-3, -2, -1, 0, 1, 2, 3)))
+            fx = rng.randrange(q) if rng.random() < 0.8 else 0
+            fy = rng.randrange(q) if rng.random() < 0.8 else 0
+            if mode == "int":
+                fx = fy = 0
+            elif not pts and fx == 0 and fy == 0:
+                fx = 1                              # at least one fractional coordinate per case
+            pt = (x * q + fx, y * q + fy)
+            if pt not in seen:
+                seen.add(pt)
+                pts.append(pt)
+    order = d.get("order", "asis")
+    if order == "shuffled":
+        rng.shuffle(pts)
+    elif order == "sorted":
+        pts.sort()
+    elif order == "reversed":
+        pts.sort(reverse=True)
+    Es = np.array(pts, dtype=np.int64)
+    if q & (q - 1) and mode != "perfect":           # coordinates not exact in binary64: no exact ties may remain
+        while True:
+            dd = (KPs[:, None, 0] - Es[None, :, 0]) ** 2 + (KPs[:, None, 1] - Es[None, :, 1]) ** 2
+            drop = set()
+            tie_e = ((dd == dd.min(axis=0)[None, :]).sum(axis=0) > 1)          # an expected point with two nearest knees
+            drop.update(int(v) for v in np.nonzero(tie_e)[0])
+            for k in np.nonzero((dd == dd.min(axis=1)[:, None]).sum(axis=1) > 1)[0]:   # a knee with two nearest expected points
+                drop.add(int(np.nonzero(dd[k] == dd[k].min())[0][-1]))
+            if not drop:
+                break
+            Es = Es[np.array([m for m in range(len(Es)) if m not in drop], dtype=int)]
+            assert len(Es) >= 1
+    if mode == "perfect":
+        Ef = P[Ka].copy()                           # exactly the knee points, in the curve's own dtype
+    else:
+        Ef = Es / float(q)                          # correctly rounded k/q (exact for q a power of two)
+    rep = d["rep"]
+    E = Ef if rep == "array" else ([tuple(r) for r in Ef.tolist()] if rep == "tuples" else Ef.tolist())
+    return P, Ka, E, KPs, Es
+
+
+def _if_oracle(d):
+    import random
+    P, K, E, KPs, Es = _if_build(d)
+    q = d["q"]
+    rng = random.Random(d["seed"] + 7)
+    assert len(set(map(tuple, Es.tolist()))) == len(Es) and len(K) + len(Es) <= d["n"] and len(E) == len(Es)
+    wants, tabs, ords = {}, {}, {}
+    for side, A, Bp in (("knees", KPs, Es), ("expected", Es, KPs)):
+        mt, mae_n, mse_n, tb, order = _sc_match(A, Bp, rng)
+        tabs[side], ords[side] = tb, order
+        na = len(A)
+        mse = Fr(mse_n, 2 * na * q * q)
+        wants[side] = {"mae": mae_n / (2.0 * na * q), "mse": mse.numerator / mse.denominator, "rmse": _sqrt_fr(mse),
+                       "rmspe": _sc_rmspe(A, Bp, mt, Fr(EPS) * q), "rmspe25": _sc_rmspe(A, Bp, mt, Fr(0.25) * q),
+                       "far_matches": int((mt >= 256).sum()), "max_match_index": int(mt.max())}
+        wants[side].update(_sc_xstats(A, Bp, mt))
+    perfect = set(map(tuple, Es.tolist())) == set(map(tuple, KPs.tolist()))
+    case = {"id": d["id"], "kind": "err", "n": d["n"], "KP": KPs.tolist(), "E": Es.tolist(),
+            "ordK": ords["expected"], "ordE": ords["knees"], "mk": tabs["knees"], "me": tabs["expected"],
+            "side": {s: _sc_side(s, len(K), len(Es)) for s in STRATS}, "perfect": perfect}
+    frac = int(((Es % q) != 0).any(axis=1).sum())
+    return {"case": case, "wants": wants, "perfect": perfect, "nk": len(K), "ne": len(Es), "fractional_expected_points": frac}
+
+
+def _if_calls(d, s):
+    """the library calls of one strategy; a list of tuples / lists as the ITERATED side is outside what the unchanged rmspe
+    accepts (tuple + eps), so rmspe is called on a list only where the knees are iterated"""
+    import kneeliverse.evaluation as ev
+    P, K, E, _, _ = _if_build(d)
+    m = len(K) + len(E)
+    st = ev.Strategy[s]
+    got = {}
+    for name in ("mae", "mse", "rmse"):
+        got[name] = _sc_call(getattr(ev, name), (P, K, E, st), m)
+    if isinstance(E, np.ndarray) or _sc_side(s, len(K), len(E)) == "knees":
+        got["rmspe"] = _sc_call(ev.rmspe, (P, K, E, st), m)
+        got["rmspe25"] = _sc_call(ev.rmspe, (P, K, E, st, 0.25), m)
+    if s == "expected":
+        got["mse_default"] = _sc_call(ev.mse, (P, K, E), m)
+        got["rmse_default"] = _sc_call(ev.rmse, (P, K, E), m)
+    return {k: (o, (float(v) if o == "returned" else str(v))) for k, (o, v) in got.items()}
+
+
+def _if_item(item):
+    d, part = item
+    return _if_oracle(d) if part == "oracle" else _if_calls(d, part)
+
+
+def _if_plan(ctx):
+    import random
+    import types
+    rng = random.Random(ctx.seed * 7919 + 1717)      # its own stream: the older families see the same ctx.rng as before
+    ns = scale.sizes(types.SimpleNamespace(rng=rng, quick=ctx.quick), lo=3000, k_quick=3, k_thorough=8)
+    out = []
+
+    def desc(n, nk, ne, emode, **kw):
+        k = len(out)
+        shapes = ["hyper", "saw", "ramp", "triwave"] + (["stairs", "mrc"] if n >= 400 else [])
+        d = {"fam": "intfrac", "n": n, "shape": rng.choice(shapes), "kmode": rng.choice(("uniform", "uniform", "clustered", "even")),
+             "nk": nk, "ne": ne, "emode": emode, "order": rng.choice(("asis", "sorted", "shuffled", "reversed")),
+             "q": IF_Q[k % len(IF_Q)], "dtype": IF_DTYPES[(k + k // 10) % 2], "rep": IF_REPS[(k + k // 4) % len(IF_REPS)],
+             "seed": rng.randrange(1 << 30)}
+        d.update(kw)
+        if d["shape"] == "triwave":
+            d["wave"] = [rng.randint(200, 6000), rng.randint(max(8, min(20, n // 2)), max(9, min(1500, n)))]
+        if n < 40:
+            d["kmode"] = "uniform"
+        if d["kmode"] == "even":
+            d["nk"] = len(_sc_knees(None, n, nk, "even"))
+        if emode == "perfect":
+            d["ne"] = d["nk"]
+        out.append(d)
+
+    for rep in range(1 if ctx.quick else 4):
+        # the small inputs of the error scores: a few dozen points, 2 .. 6 knees, 1 .. 6 expected points
+        for k in range(10):
+            n = rng.randint(12, 60)
+            nk = rng.randint(2, 6)
+            ne = (nk if k % 5 == 3 else rng.randint(1, 6))
+            desc(n, nk, ne, ("near", "off", "random", "near", "off")[k % 5])
+        desc(rng.randint(12, 60), rng.randint(2, 6), 0, "perfect")
+        desc(rng.randint(12, 60), rng.randint(2, 6), rng.randint(2, 5), "int")
+        # hundreds of points on both sides, straddling 256 / 1024 (thorough: 4096) on either side
+        for lo, hi in ((30, 120), (257, 330), (1025, 1100)) + (() if ctx.quick else ((600, 1000), (4097, 4200))):
+            b = rng.randint(lo, hi)
+            sm = max(20, int(b * rng.uniform(0.2, 0.9))) if b < 2000 else rng.randint(100, 600)
+            n = rng.choice([v for v in ns if v >= 2 * (b + sm) + 8] or [max(ns)])
+            if rng.random() < 0.5:
+                n = max(2 * (b + sm) + 8 + rng.randrange(50), 300)
+            desc(n, b, sm, rng.choice(("near", "off")))
+            desc(n, sm, b, rng.choice(("near", "off", "random")))
+        desc(rng.choice(ns), rng.randint(257, 400), 0, "perfect")
+    for k, d in enumerate(out):
+        d["id"] = "IF%d" % k
+    return ns, out
+
+
+def _if_run(ctx, descs, selftest=None):
+    items = [(d, part) for d in descs for part in ("oracle",) + STRATS]
+    items.sort(key=lambda it: -(it[0]["nk"] + it[0]["ne"]))
+    res = par.pmap(_if_item, items, chunksize=1)
+    by = {}
+    for (d, part), r in zip(items, res):
+        by.setdefault(d["id"], {})[part] = r
+    cases = [by[d["id"]]["oracle"]["case"] for d in descs]
+    byid = {d["id"]: d for d in descs}
+    nst = len(selftest or [])
+    rej = ctx.trace("Trace_EvaluationScale", cases, selftest=selftest, chunk=-(-(len(cases) + nst) // 3), procs=3)
+    for cid, vs in rej.items():
+        _machinery("Trace_EvaluationScale rejected the harness's own oracle table of case %s (%s): %s" % (cid, byid[cid], vs[0]))
+    seen = {}
+    for d in descs:
+        for clause, detail in _sc_judge_err(d, by[d["id"]]["oracle"], {s: by[d["id"]][s] for s in STRATS}):
+            seen[clause] = seen.get(clause, 0) + 1
+            if seen[clause] <= 2:
+                ctx.violation(clause, {"kind": "Tscale", "desc": d},
+                              dict(detail, curve_dtype=d["dtype"], expected_coordinates="k/%d" % d["q"], expected_given_as=d["rep"]))
+    return by, seen
+
+
+def _intfrac_family(ctx):
+    import time
+    t0 = time.time()
+    ns, descs = _if_plan(ctx)
+    by, seen = _if_run(ctx, descs, selftest=[t for t in _sc_selftests() if t[0]["kind"] == "err"])
+    cov = ctx.extra.setdefault("intfrac", {})
+    cov["cases"] = [{"n": d["n"], "dtype": d["dtype"], "denominator": d["q"], "expected_given_as": d["rep"], "shape": d["shape"],
+                     "knees": by[d["id"]]["oracle"]["nk"], "expected": by[d["id"]]["oracle"]["ne"],
+                     "fractional_expected_points": by[d["id"]]["oracle"]["fractional_expected_points"],
+                     "expected_points": d["emode"], "order": d["order"],
+                     "sums_certified_by_tlc": [by[d["id"]]["oracle"]["case"][k]["full"] for k in ("mk", "me")]} for d in descs]
+    cov["combinations"] = sorted(set("%s x k/%d x %s" % (d["dtype"], d["q"], d["rep"]) for d in descs))
+    cov["violating_cases_by_clause"] = dict(seen)
+    cov["calls_per_case"] = ("mae, mse, rmse x 4 strategies + mse / rmse with the default strategy; rmspe (default eps and 0.25) x 4 "
+                             "strategies for arrays, for lists only where the knees are the iterated side")
+    cov["wall_s"] = round(time.time() - t0, 1)
+    for d in descs:
+        o = by[d["id"]]["oracle"]
+        ctx.count(("intfrac", d["n"], d["dtype"], d["q"], d["rep"], d["shape"], d["emode"], d["nk"], d["ne"], d["seed"]),
+                  o["fractional_expected_points"] > 0 and min(o["wants"][k]["mse"] for k in ("knees", "expected")) > 0)
+    ctx.traces += 20 * len(descs)
+    pick = next((d for d in descs if d["emode"] in ("near", "off") and d["rep"] == "array" and d["n"] <= 60), descs[0])
+    o = by[pick["id"]]["oracle"]
+    P, K, E, _, _ = _if_build(pick)
+    ctx.sample({"binding": "T (intfrac)", "descriptor": pick, "knee_points": P[K].tolist(), "expected": np.asarray(E, dtype=float).tolist(),
+                "specified": {k: {f: v[f] for f in ("mae", "mse", "rmse", "rmspe")} for k, v in o["wants"].items()},
+                "returned": {s: {f: by[pick["id"]][s][f][1] for f in ("mae", "mse", "rmse", "rmspe")} for s in STRATS}})
+    ctx.note("intfrac family: %d error cases on int64 / int32 curves of %d .. %d points with expected points on k/q lattices "
+             "(q in %s; float arrays, lists of tuples, lists of lists), up to %d knees / %d expected points, in %.1f s"
+             % (len(descs), min(d["n"] for d in descs), max(d["n"] for d in descs), sorted(set(d["q"] for d in descs)),
+                max(d["nk"] for d in descs), max(d["ne"] for d in descs), cov["wall_s"]))
 
 
 
@@ -844,7 +1076,11 @@ def run(ctx):
                 "period 100 .. 2000), 1025 .. 5000 (thorough: 257 .. 35000) points on the searched side and 3 .. 20 points on the "
                 "iterated side inside a narrow / medium / wide x window (few expected points on the curve or at the height the curve "
                 "has elsewhere; or few knees against thousands of expected points), so that the Euclidean nearest neighbour is "
-                "routinely not the nearest in x and lies outside the x span of the iterated side")
+                "routinely not the nearest in x and lies outside the x span of the iterated side.  "
+                "Intfrac family (T, same oracle and same Trace_EvaluationScale certificate on the lattice q * points): int64 / int32 "
+                "curves of 12 .. 10^5 points x 1 .. 1100 (thorough: 4200) expected points with fractional coordinates k/q, q in "
+                "{2, 4, 8, 5, 10}, given as float arrays, lists of tuples and lists of lists (plus integer-valued and perfect "
+                "controls), replayed into mae / mse / rmse / rmspe x 4 strategies (rmspe on a list only where the knees are iterated)")
     ctx.assumptions += numeric.ASSUMPTIONS + [
         "n-1 is a power of two and t dyadic, so distance/range <= t is decided exactly in binary64",
         "nearest knee / nearest neighbour ties: first index (numpy argmin)",
@@ -857,7 +1093,11 @@ def run(ctx):
         "of |dx|+|dy| and dx^2+dy^2 are exact in int64 and in binary64 (distinct squared distances below 2^52 have distinct "
         "correctly rounded roots); values are compared within rel 1e-9 + 8*|a|*2^-52 / abs 1e-12; rmspe terms are evaluated "
         "exactly over Fractions, rounded once and summed exactly (fsum); cm tolerances are rationals tn/td with td <= 1000 "
-        "and n <= 1.1*10^5, for which distance/range <= t decides in binary64 exactly as over the rationals"]
+        "and n <= 1.1*10^5, for which distance/range <= t decides in binary64 exactly as over the rationals",
+        "intfrac family: all coordinates of a case are k/q; for q in {2, 4, 8} they are exact in binary64 and ties go to the first "
+        "index; for q in {5, 10} the expected points are the correctly rounded k/q, expected points involved in an exact tie of "
+        "the matching are dropped from the case (distinct squared distances differ by >= 1/q^2, far above rounding noise) and "
+        "the values are compared within the same rel 1e-9 tolerance"]
     acts = ("CmClaim", "CmMiss", "CmReturn", "ErrReturn")
     ctx.mc("Evaluation", "MC_Evaluation_reclaim", expect="CmIdentities")
     ctx.mc("Evaluation", "MC_Evaluation_fpraw", expect="CmIdentities")
@@ -918,6 +1158,8 @@ def run(ctx):
                     ctx.violation("one-on-perfect", case, {"fn": name, "got": v, "cm": np.asarray(m).tolist()})
     # ---- scale: production-size calls with sparse TLC-certified tables
     _scale_family(ctx)
+    # ---- intfrac: integer-dtype curves x fractional expected points (same oracle / certificate on the lattice q * points)
+    _intfrac_family(ctx)
     # ---- growth beyond C19: the R2 neighbourhood searches of evaluation.py (notes only)
     growth.safe(ctx, growth.neighbourhood)
     growth.safe(ctx, growth.accuracy_knee_t)
